@@ -67,6 +67,10 @@ def variants(case, X, y):
         pc = [cols[i] for i in perm]
         out.append((f"columns{perm}", X[pc], y, [c for c in pc if c in q], [c for c in pc if c in l]))
     n = len(X)
+    if case["selector"] == "classification":
+        # only the rows of X are permuted, labels kept: X and y are paired by index label, not by position
+        for name, p in (("reverse", list(range(n))[::-1]), ("rot5", [(i + 5) % n for i in range(n)])):
+            out.append((f"rows-of-X-only:{name}", X.iloc[p], y, q, l))
     for name, p in (("reverse", list(range(n))[::-1]), ("rot1", [(i + 1) % n for i in range(n)]), ("rot5", [(i + 5) % n for i in range(n)]), ("swap01", [1, 0] + list(range(2, n))), ("swap56", list(range(5)) + [6, 5] + list(range(7, n)))):
         out.append((f"rows:{name}", X.iloc[p], y.iloc[p], q, l))
         out.append((f"rows+reset:{name}", X.iloc[p].reset_index(drop=True), y.iloc[p].reset_index(drop=True), q, l))
@@ -116,7 +120,35 @@ def run_colsample(case):
     return res
 
 
+def run_replicated(case):
+    """the frame replicated `rep` times (N = 12*rep): the statistics grow with N (Kruskal's H of a copy is N-1, its
+    p-value underflows), the ranking must not change: a single copy / monotone image of the target is still returned"""
+    X, y = c14.build_frame(case)
+    rep = case["rep"]
+    Xb = pd.concat([X] * rep, ignore_index=True)
+    yb = pd.concat([y] * rep, ignore_index=True)
+    res = {"violations": [], "sample": dict(case), "evaluations": 1}
+    q, l = list(case["qcols"]), list(case["lcols"])
+    cols = q or l
+    perfect = [c for c in cols if c in PERFECT_Q or c in PERFECT_L or c.rstrip("_") in PERFECT_Q]
+    ref, _ = c14.measures_for(case, X, y)
+    rivals = [c for c in cols if c != perfect[0] and ref[c][0] is not None and ref[c][0] >= ref[perfect[0]][0] - 1e-9]
+    got = select(case, Xb, yb, q, l)
+    base = select(case, X, y, q, l)
+    if perfect[0] not in got and not rivals:
+        res["violations"].append({"kind": "replicated:perfect-feature-lost", "what": f"N={len(Xb)}: {perfect[0]} (copy / monotone image of the target) is not returned: {got} (on the 12-row frame: {base})"})
+    elif shape(got, ref, cols) != shape(base, ref, cols) and not rivals:
+        res["violations"].append({"kind": "replicated:selection-differs", "what": f"N={len(Xb)}: selection {got} differs from the selection on the 12-row frame {base} (same empirical distribution)"})
+    res["transitions"] = 1
+    res["outcome"] = f"replicated:{case['target']}:{'rival-tie' if rivals else 'strict'}"
+    if not rivals:
+        res["nontrivial"] = repr(sorted((k, str(v)) for k, v in case.items()))
+    return res
+
+
 def run_case(case):
+    if case.get("rep"):
+        return run_replicated(case)
     if case.get("colsample", 1.0) < 1:
         return run_colsample(case)
     X, y = c14.build_frame(case)
@@ -159,7 +191,8 @@ def run_case(case):
             viol.append({"kind": "variant-raises", "what": f"{name}: select raised {type(exc).__name__}: {str(exc)[:80]}"})
             continue
         n += 1
-        ref2, variant2 = c14.measures_for(dict(case, qcols=q2, lcols=l2), X2, y2)
+        X2a = X2.loc[y2.index] if list(X2.index) != list(y2.index) else X2  # the reference pairs rows by index label
+        ref2, variant2 = c14.measures_for(dict(case, qcols=q2, lcols=l2), X2a, y2)
         got_shape = shape(got, ref2, q2 + l2)
         if got_shape != base_shape:
             finding = None
@@ -208,6 +241,10 @@ def run(tier, seed, rep):
                         c = {"selector": "classification", "target": target, "qcols": [], "lcols": [], "n_best": n_best, "thresh_corr": 1, "colsample": 0.5}
                         c[key] = list(sub)
                         base.append(c)
+                    # the same frame replicated 150 times (N = 1800)
+                    c = {"selector": "classification", "target": target, "qcols": [], "lcols": [], "n_best": 1, "thresh_corr": 1, "rep": 150}
+                    c[key] = list(sub)
+                    base.append(c)
     rep.rule = (
         "colsample=0.5: every outcome of shuffle for frames with a single copy / monotone image of the target among 3-4 candidates; "
         "E1 metamorphic over the C14 frames (default measures and filters): orbit under negating each quantitative column, scaling it by 2, "
